@@ -142,8 +142,17 @@ def e_det(c):
         _ = ratio
     else:
         check(np.max(np.abs(resid)) <= 1e-10 * big2, "shot-term-present-but-not-selected", sel)
-    # dark-current offset is part of every selection
-    check(abs(float(np.mean(yd.noise - y.noise)) - dI * R) <= 1e-9 * big2 + 6 * float(np.std(resid)) / np.sqrt(max(1, N // 16)) + 1e-6 * dI * R, "dark-offset-missing", sel)
+    # dark-current offset is part of every selection (deterministic formulations)
+    if not has_sh:
+        check(float(np.max(np.abs((yd.noise - y.noise) - dI * R))) <= 1e-9 * big2, "dark-offset-missing", sel)
+    else:
+        xs = optical_signal(E.copy(), None, n_pol=npol)
+        ps = r * float(np.mean(psum))
+        i1, i2 = 2e-6, 2e-6 + 8 * (ps + 2e-6)
+        na, nb = pd(xs, T=0, i_dark=i1).noise, pd(xs, T=0, i_dark=i2).noise
+        rho = np.sqrt((ps + i2) / (ps + i1))
+        # same seed: nb - i2*R == rho*(na - i1*R)  =>  nb - rho*na is the constant (i2 - rho*i1)*R
+        check(float(np.max(np.abs((nb - rho * na) - (i2 - rho * i1) * R))) <= 1e-8 * max(float(np.max(np.abs(nb))), i2 * R), "dark-offset-missing", sel)
     # ase: beating terms respond to the optical-noise waveform (phase scrambling keeps its power, hence the shot variance)
     if nz is not None:
         scr = np.exp(1j * rs.uniform(0, 6, size=shape))
